@@ -420,6 +420,12 @@ def _tensors(ctx, n):
         (10, 20, 30, 0, 0, 0), (30, 20, 10, 5, 5, 5), (1e-9, 0, 0, 0, 0, 0), (1e6, -1e6, 3e5, 2e5, -1e5, 4e5), (5, 5, 5, 5, 5, 5),
     ]
     out = [np.array(t, dtype=float) for t in special]
+    # every pattern of vanishing components (the 64 subsets of the six), twice: a shortcut for "already diagonal" / "plane" tensors must look at all of them
+    for mask in range(64):
+        for rep in range(2):
+            t = rng.normal(size=6) * 100
+            t[[i for i in range(6) if mask >> i & 1]] = 0
+            out.append(t)
     while len(out) < n:
         t = rng.normal(size=6) * rng.choice([1.0, 100.0, 1e-3])
         if rng.random() < 0.2:
@@ -437,7 +443,7 @@ def b_eig(ctx):
     import numpy as np
     from pylife.stress import equistress as eqs
     n = 500 if ctx.tier == 'quick' else 20000
-    ctx.bound = f"{n} tensors: 15 special (zero, uniaxial, pure shear, hydrostatic, repeated roots, tiny, large) + seeded normal random; 3 rotations, scales 0.5/3"
+    ctx.bound = f"{n} tensors: 15 special (zero, uniaxial, pure shear, hydrostatic, repeated roots, tiny, large) + 128 with each pattern of vanishing components + seeded normal random; 3 rotations, scales 0.5/3"
     ctx.rule = "a tensor is non-trivial if it is non-zero; distinct by value"
     tens = _tensors(ctx, n)
     rng = np.random.default_rng(ctx.seed)
@@ -470,7 +476,14 @@ def b_eig(ctx):
             f = getattr(eqs, name)
             v = float(f(*t))
             for c in (0.5, 3.0):
-                if abs(float(f(*(c * t))) - c * v) > 1e-9 * scale * c:
+                vc = float(f(*(c * t)))
+                if abs(vc - c * v) > 1e-9 * scale * c:
+                    # the same tie rule as under rotation: a sign indicator that is zero in real numbers (w2 == -w0, trace == 0) flips under rounding
+                    tie = (name.startswith('signed') and (abs(I1) < 1e-9 * scale or abs(w[2] + w[0]) < 1e-9 * scale)) or \
+                          (name == 'abs_max_principal' and abs(abs(w[2]) - abs(w[0])) < 1e-9 * scale)
+                    if tie and abs(abs(vc) - c * abs(v)) <= 1e-9 * scale * c:
+                        ctx.count('sign-indicator-zero-under-rounding')
+                        continue
                     ctx.fail('C17:scaling', f'{name} not homogeneous for {t.tolist()}', {'tensor': t.tolist(), 'c': c})
             # scalar vs column
             col = np.asarray(f(*[np.array([x, x]) for x in t]))
